@@ -45,6 +45,8 @@ def evJson : Ev → Json
   | .shutdownbegin => jstrs ["shutdownbegin"]
   | .stopPoll m => jstrs ["stopPoll", m]
   | .shutdown m => jstrs ["shutdown", m]
+  | .latepoll m => jstrs ["latepoll", m]
+  | .alive t => jstrs ["alive", t]
 
 def parseEv (j : Json) : R Ev := do
   let a ← (← arr j).mapM (·.getStr?)
@@ -64,6 +66,8 @@ def parseEv (j : Json) : R Ev := do
   | ["shutdownbegin"] => pure .shutdownbegin
   | ["stopPoll", m] => pure (.stopPoll m)
   | ["shutdown", m] => pure (.shutdown m)
+  | ["latepoll", m] => pure (.latepoll m)
+  | ["alive", t] => pure (.alive t)
   | _ => throw s!"bad event {j.compress}"
 
 def errJson (e : Err) : Json := jstrs [e.phase, e.mod, e.cls]
